@@ -1,7 +1,7 @@
 /-
 C13 — time-range membership follows the documented interval semantics.
 
-Model: `FeVerif/Model/TimeRange.lean` (literal to `utils/time_range.py` after the two `fix:` commits recorded in
+Model: `FeVerif/Model/TimeRange.lean` (literal to `utils/time_range.py` after the three `fix:` commits recorded in
 KNOWN_FINDINGS.txt).  Specification: `FeVerif/Spec/TimeRange.lean` (`Interval.verdict`, `Interval.seq`).
 Times are integers in any fixed resolution; all statements are for message sequences of any length.
 -/
@@ -55,13 +55,13 @@ theorem C13_constructed_range_refines (s e : BoundArg) (a : Option Bool) (z : Op
   cases a <;> rfl
 
 /-- **restart().** After any history, `restart()` clears both latches and keeps bounds, type and the origin already
-established (supplied, or the first P1 time seen while a range was specified); the next pass over a monotone
+established (supplied, or the first P1 time seen - by a range with or without bounds); the next pass over a monotone
 sequence is again the interval's verdicts, measured from that origin. -/
 theorem C13_restart_resets (r : TimeRange) (retTs retTs' : Bool) (hist msgs : List Msg) (hwf : r.WF)
     (hmono : Monotone msgs) :
     ((r.run retTs hist).1.restart).started = false ∧ ((r.run retTs hist).1.restart).ended = false ∧
     ((r.run retTs hist).1.restart).t0 = (r.run retTs hist).1.t0 ∧
-    (r.specified = true → (r.run retTs hist).1.t0 = orElse r.t0 (firstP1 hist)) ∧
+    (r.run retTs hist).1.t0 = orElse r.t0 (firstP1 hist) ∧
     (((r.run retTs hist).1.restart).run retTs' msgs).2 =
       Interval.seq ⟨r.start, r.stop, r.absolute, orElse (r.run retTs hist).1.t0 (firstP1 msgs)⟩ msgs := by
   refine ⟨rfl, rfl, rfl, TimeRange.run_t0 r retTs, ?_⟩
@@ -109,6 +109,50 @@ theorem C13_intersect_is_intersection (a b c : TimeRange) (retTs : Bool) (msgs :
         rw [ha'] at hc; injection hc with hc; subst hc
         exact TimeRange.fresh_meet b (TimeRange.fresh_makeAbsolute ha ha')
     · injection hc with hc; subst hc; exact TimeRange.fresh_meet b ha
+
+/-- **Operations on ranges that have already been used.** Whatever two ranges have been shown before (`ha`, `hb`;
+with or without bounds, any results), `intersect` fails exactly when one is absolute, the other relative, and
+neither knows an origin - a supplied `t0`, or the first P1 time it has been shown. -/
+theorem C13_intersect_after_history_error_iff (a b : TimeRange) (retTs : Bool) (ha hb : List Msg) :
+    (a.run retTs ha).1.intersect (b.run retTs hb).1 = .error .valueError ↔
+      a.absolute ≠ b.absolute ∧ orElse a.t0 (firstP1 ha) = none ∧ orElse b.t0 (firstP1 hb) = none := by
+  rw [TimeRange.intersect_error_iff, TimeRange.run_t0 a retTs, TimeRange.run_t0 b retTs,
+    (TimeRange.run_static (ms := ha) a retTs).2.2.1, (TimeRange.run_static (ms := hb) b retTs).2.2.1]
+
+/-- Otherwise the result, after `restart()`, accepts on every monotone sequence on which the two time frames agree
+exactly the messages accepted by both intervals as constructed, each measured from the origin its range knows by
+then (supplied, else the first P1 time it was shown), else from the first P1 time of the new sequence. -/
+theorem C13_intersect_after_history (a b c : TimeRange) (retTs retTs' : Bool) (ha hb msgs : List Msg)
+    (hwa : a.WF) (hwb : b.WF) (hc : (a.run retTs ha).1.intersect (b.run retTs hb).1 = .ok c)
+    (hcompat : Compatible (a.run retTs ha).1 (b.run retTs hb).1 msgs) (hmono : Monotone msgs) :
+    (c.restart.run retTs' msgs).2 =
+      List.zipWith (· && ·)
+        (Interval.seq ⟨a.start, a.stop, a.absolute, orElse (orElse a.t0 (firstP1 ha)) (firstP1 msgs)⟩ msgs)
+        (Interval.seq ⟨b.start, b.stop, b.absolute, orElse (orElse b.t0 (firstP1 hb)) (firstP1 msgs)⟩ msgs) := by
+  have hfa := TimeRange.fresh_restart (TimeRange.run_wf retTs ha hwa)
+  have hfb := TimeRange.fresh_restart (TimeRange.run_wf retTs hb hwb)
+  have h := TimeRange.intersect_run retTs' msgs hfa hfb (TimeRange.intersect_restart hc) hcompat hmono
+  rw [h, TimeRange.run_refines _ retTs' msgs hfa hmono, TimeRange.run_refines _ retTs' msgs hfb hmono,
+    TimeRange.interval_after_run, TimeRange.interval_after_run]
+
+/-- The same for `make_absolute()` on a used range: it fails exactly for a relative range that knows no origin and
+is given none. -/
+theorem C13_make_absolute_after_history_error_iff (r : TimeRange) (retTs : Bool) (hist : List Msg) (p : Option Int) :
+    (r.run retTs hist).1.makeAbsolute p = .error .valueError ↔
+      r.absolute = false ∧ orElse r.t0 (firstP1 hist) = none ∧ p = none := by
+  rw [TimeRange.makeAbsolute_error_iff, TimeRange.run_t0 r retTs, (TimeRange.run_static (ms := hist) r retTs).2.2.1]
+
+/-- **make_absolute() in the middle of a pass.** Once the origin of a relative range is established (supplied, or a
+P1 time has been shown), converting it - whatever the argument - does not disturb the pass: no latch is touched, and
+on whatever follows (monotone or not) the converted range returns what the relative range would have returned. -/
+theorem C13_make_absolute_mid_pass (r : TimeRange) (retTs retTs' : Bool) (pre post : List Msg) (p : Option Int)
+    (z : Int) (ha : r.absolute = false) (hz : orElse r.t0 (firstP1 pre) = some z) :
+    ∃ r', (r.run retTs pre).1.makeAbsolute p = .ok r' ∧ r'.absolute = true ∧
+      r'.started = (r.run retTs pre).1.started ∧ r'.ended = (r.run retTs pre).1.ended ∧
+      (r'.run retTs' post).2 = ((r.run retTs pre).1.run retTs' post).2 := by
+  have ha' : (r.run retTs pre).1.absolute = false := by rw [(TimeRange.run_static (ms := pre) r retTs).2.2.1, ha]
+  have hz' : (r.run retTs pre).1.t0 = some z := by rw [TimeRange.run_t0 r retTs, hz]
+  exact ⟨_, TimeRange.makeAbsolute_known p ha' hz', rfl, rfl, rfl, TimeRange.shifted_run ha' hz' retTs'⟩
 
 /-- **parse().** A text `START[:END[:abs|rel]]` whose number parts convert (`''` and negative values count as
 omitted) yields the fresh range `[START, END)` of the given type (the type in the text wins over the argument; no type
